@@ -11,14 +11,15 @@ ASSUMPTIONS = [
 CFGS = [dict(max_msgs=3, flush=True, relay_pool=1), dict(max_msgs=3, flush=False, relay_pool=2, foreign=True),
         dict(max_msgs=2, flush=True, backend='disk'), dict(max_msgs=2, flush=False, backend='cloud'),
         dict(max_msgs=2, flush=True), dict(max_msgs=3, flush=False), dict(max_msgs=2, flush=True, junk=True),
-        dict(max_msgs=1, flush=True)]
+        dict(max_msgs=1, flush=True), dict(max_msgs=2, flush=True, relay='pipe'), dict(max_msgs=2, flush=False, relay='pipe1'),
+        dict(max_msgs=2, flush=True, relay='pipe', backend='disk')]
 
 
 def run(ctx):
     for backend in ('dict', 'disk', 'cloud'):
         qharness.scripted_rounds(ctx, ('c01',), backend)
     ctx.extra['rule'] = ('random schedules over {enqueue, release any pending storage/relay/load/wait gate with a random result '
-                         '(relay: ok/temp/perm/other/mapping/sequence, a stream with results outside the contract; backoff: None/0/5/10), '
+                         '(relay: ok/temp/perm/other/mapping/sequence, a stream with results outside the contract; in the relay=pipe/pipe1 configurations the relay is the REAL PipeRelay (per-recipient or not) over scripted processes, exit status incl. death by signal + output being the ground truth; backoff: None/0/5/10), '
                          'advance the virtual clock, flush}; each run is then drained and the final disposition of every accepted recipient '
                          'is checked; every run is replayed on the Coq model and compared at every quiescent point; non-trivial = >= 2 attempts')
     qharness.explore(ctx, ('c01',), 600 if ctx.quick else 6000, 40, CFGS)
